@@ -114,7 +114,7 @@ def main(argv=None):
         n_eval += 1
         for k, n in (res.get("obs") or {}).items():
             if isinstance(n, (int, float)):
-                obs[k] = obs.get(k, 0) + n
+                obs[k] = max(obs.get(k, 0), n) if k.startswith("max_") else obs.get(k, 0) + n
         for sub in res.get("cells") or ([res["cell"]] if res.get("cell") else []):
             if res.get("nontrivial", True):
                 cells.add(json.dumps(sub, sort_keys=True) if not isinstance(sub, str) else sub)
